@@ -16,7 +16,7 @@ THEOREMS = [
             "Sb.Proofs.roundF32_mono", "Sb.Proofs.roundF32_natCast"]
 NAN = 0x7FC00000
 RULE = ("travel time: grids of (distance, speed, acceleration) incl. the regime boundary distance = speed^2/acceleration and its "
-        "float neighbours, 0, negative, ±inf, NaN, infinite acceleration; monotonicity in distance on consecutive grid points; "
+        "float neighbours, 0, distances down to 1e-30 at small speeds/accelerations, negative, ±inf, NaN, infinite acceleration; monotonicity in distance on consecutive grid points; "
         "scale update: coordinates at k*32767, k*32767±1 and their float neighbours for k=1..128, fractional, ±inf, NaN, old scales "
         "{0,1,5,127}; seconds->ms: grid incl. 4294967 s, its float neighbours, fractional milliseconds, negative, ±inf, NaN; "
         "interval/box expansion by positive/negative/zero amounts; colour interpolation: per-channel rows over all 256 second values x 33 "
@@ -42,6 +42,15 @@ def generate(rng, tier):
             for d in ds:
                 out.append((f"tt {d} {f2b(v)} {f2b(a)}", d in (bnd, next_up(bnd), next_down(bnd))))
             out.append((f"tt {f2b(2.5)} {f2b(v)} {PINF}", True))
+    # very small positive distances: still the profile's time, not 0 (with small speed/acceleration it is far from 0)
+    for d in (1.1920929e-7, 1.1920928e-7, 1e-7, 5e-8, 1e-8, 1e-10, 1e-14, 1e-20, 1e-30):
+        for v, a in ((1.0, 1.0), (0.5, 0.1), (1e-3, 1e-6), (1e-12, 1e-15), (1e-9, None), (2.0, None), (1e-6, 1e-3), (1e-4, 1e-12)):
+            out.append((f"tt {f2b(d)} {f2b(v)} {PINF if a is None else f2b(a)}", True))
+    for _ in range(400 if thorough else 60):
+        d = 10.0 ** rng.uniform(-30, -6)
+        v = 10.0 ** rng.uniform(-12, 1)
+        a = 10.0 ** rng.uniform(-15, 2)
+        out.append((f"tt {f2b(d)} {f2b(v)} {f2b(a) if rng.random() < 0.85 else PINF}", True))
     for d, v, a in itertools.product([f2b(-1.0), 0, f2b(1.0), PINF, NINF, NAN], [f2b(-1.0), 0, f2b(2.0), PINF, NINF, NAN], [f2b(-4.0), 0, f2b(4.0), PINF, NINF, NAN]):
         out.append((f"tt {d} {v} {a}", True))
     for v in speeds:
